@@ -156,6 +156,11 @@ func (c *ScriptConn) PrependInput(b []byte) {
 	c.mu.Unlock()
 }
 
+// AppendInputLocked is AppendInput for use inside an OnWrite callback.
+func (c *ScriptConn) AppendInputLocked(b []byte) {
+	c.in = append(c.in[:len(c.in):len(c.in)], b...)
+}
+
 // PrependInputLocked is PrependInput for use inside an OnWrite callback (the
 // transport's lock is already held there).
 func (c *ScriptConn) PrependInputLocked(b []byte) {
